@@ -21,7 +21,7 @@ static inline uint64_t stamp() { return g_light ? 0 : g_seq.fetch_add(1, RLX); }
 template <class T> static inline void atomic_max(std::atomic<T>& a, T v) { T c = a.load(RLX); while (v > c && !a.compare_exchange_weak(c, v, RLX)) {} }
 static std::atomic<const char*> g_phase{"idle"};   // what the driver is waiting for (for the watchdog's text)
 static std::atomic<bool> g_resv_outstanding{false};   // ring class: a reservation made by the harness is outstanding (grow observer)
-static std::atomic<long long> g_grows{0}, g_grows_reserved{0}, g_max_grow{0};
+static std::atomic<long long> g_grows{0}, g_grows_reserved{0}, g_max_grow{0}, g_task_puts{0};
 
 // ---------------------------------------------------------------------------------------------- scenario record
 struct Scn {
@@ -193,7 +193,7 @@ struct Producers {
     int total() const { int t = 0; for (int x : n) t += x; return t; }
     bool ordered(int p) const { return !via_task[p]; }
 };
-inline fl::continue_msg FeedBody::operator()(const int& i) const { ps->one(p, i); return fl::continue_msg(); }
+inline fl::continue_msg FeedBody::operator()(const int& i) const { ps->one(p, i); g_task_puts.fetch_add(1, RLX); return fl::continue_msg(); }
 
 // ---------------------------------------------------------------------------------------------- FIFO oracle
 // out: ids in the order in which they left the node (one consumer). Checks: only known ids, each at most once, only accepted puts,
